@@ -103,6 +103,8 @@ type world struct {
 	handler admission.Handler
 	// monitors
 	attempts int
+	// reconciling is the Usage whose reconcile is running ("" outside one).
+	reconciling string
 }
 
 // admit dispatches DELETE admission as the API server would for the
@@ -171,6 +173,9 @@ type usageForm struct {
 	bySelector bool
 	ofVersion  string
 	replay     bool
+	// composed: the Usage carries the crossplane.io/composite label, so its
+	// deletion waits for the using resource to be gone.
+	composed bool
 }
 
 func mkUsage(name string, f usageForm) *v1beta1.Usage {
@@ -199,6 +204,9 @@ func mkUsage(name string, f usageForm) *v1beta1.Usage {
 	if f.replay {
 		t := true
 		u.Spec.ReplayDeletion = &t
+	}
+	if f.composed {
+		u.SetLabels(map[string]string{"crossplane.io/composite": "some-xr"})
 	}
 	return u
 }
@@ -243,20 +251,31 @@ func (w *world) onWrite(rec *simkube.WriteRecord) {
 	// M4: the marker is removed only when the last Usage is deleted.
 	if rec.Call.Key == usedKey && rec.Before != nil && rec.Before.GetLabels()[inUseLabel] == "true" && rec.After != nil && rec.After.GetLabels()[inUseLabel] != "true" {
 		all, _ := w.usagesNaming()
-		others := 0
+		others, othersTerminating := 0, 0
 		for _, n := range all {
 			u := w.s.Peek(usageKey(n))
-			if u != nil && u.GetDeletionTimestamp() == nil {
+			if u == nil {
+				continue
+			}
+			if u.GetDeletionTimestamp() == nil {
 				others++
+			} else if n != w.reconciling {
+				// A Usage whose deletion was requested but that still exists
+				// (it waits for its using resource) is still a Usage of the
+				// resource: the one being finalized now is not the last.
+				othersTerminating++
 			}
 		}
 		if others > 0 {
 			w.r.Failf("M4/marker-removed-while-used", "%s removed the in-use marker while %d Usage(s) of the resource that are not being deleted exist (%v)", rec.Call, others, all)
 		}
+		if othersTerminating > 0 {
+			w.r.Failf("M4/marker-removed-while-terminating-usage-exists", "%s (reconcile of %q) removed the in-use marker while %d other Usage(s) of the resource still exist, waiting to be finalized (%v)", rec.Call, w.reconciling, othersTerminating, all)
+		}
 	}
 }
 
-func body(r *explore.Run, rep *report.R, sc string, depth int, form usageForm) {
+func body(r *explore.Run, rep *report.R, sc string, depth int, form usageForm, prep string) {
 	xrh.BeginExecution(1)
 	s := xrh.NewStore()
 	w := &world{s: s, r: r}
@@ -295,6 +314,18 @@ func body(r *explore.Run, rep *report.R, sc string, depth int, form usageForm) {
 	if form.ofVersion == "v2" {
 		u2form.ofVersion = "v1"
 	}
+	// Non-initial start states, reached with the real reconciler fault free.
+	switch prep {
+	case "both-ready":
+		_ = user.Create(ctx, mkUsage("u2", u2form))
+		for _, n := range []string{"u1", "u2", "u1", "u2"} {
+			w.reconciling = n
+			if out := xrh.Reconcile(rec, types.NamespacedName{Name: n}); out.Crashed != nil {
+				panic(explore.HarnessError{Msg: "crash in preparation"})
+			}
+			w.reconciling = ""
+		}
+	}
 	events := []string{"reconcile-u1", "reconcile-u2", "create-u1", "create-u2", "delete-u1", "delete-u2", "delete-used", "delete-user", "gc", "clock"}
 	var trail []string
 	refused, allowed := 0, 0
@@ -328,7 +359,9 @@ func body(r *explore.Run, rep *report.R, sc string, depth int, form usageForm) {
 				continue
 			}
 			inj.Armed = true
+			w.reconciling = n
 			out := xrh.Reconcile(rec, types.NamespacedName{Name: n})
+			w.reconciling = ""
 			inj.Armed = false
 			if out.Crashed != nil {
 				rec = mkRec()
@@ -409,7 +442,7 @@ func body(r *explore.Run, rep *report.R, sc string, depth int, form usageForm) {
 func TestCheck(t *testing.T) {
 	rep := report.New("C19", "model_checking")
 	rep.Meta(
-		"States are API-server stores (used resource r with two served versions, using resource app, Usages u1 and u2); transitions are events {create/delete u1, create/delete u2, reconcile u1/u2 with the real usage.Reconciler (an API write fault or crash at any call, <=1 per sequence), DELETE r with propagation {unset, Background, Foreground, Orphan} through API version {v1, v2}, delete the using resource, garbage collector run, clock advance (replay-deletion)}; DELETE admission is dispatched to the real webhook Handler (with the real index function registered by SetupWebhookWithManager) according to the operations and objectSelector of cluster/webhookconfigurations/usage.yaml. Depth-bounded DFS with state-hash pruning ranked by remaining depth; u1 form enumerated: by reference / by selector / selector with controller match, with or without `by` (reference / selector), of-version v1 / v2, replayDeletion. Monitors: M1 every DELETE is refused while some Usage naming r is Ready and not being deleted, and allowed when no Usage names r; M2 refused attempts are recorded; M3 marker before ready; M4 marker removed only by the last Usage; M5 Usage-by owned by the using resource.",
+		"States are API-server stores (used resource r with two served versions, using resource app, Usages u1 and u2); transitions are events {create/delete u1, create/delete u2, reconcile u1/u2 with the real usage.Reconciler (an API write fault or crash at any call, <=1 per sequence), DELETE r with propagation {unset, Background, Foreground, Orphan} through API version {v1, v2}, delete the using resource, garbage collector run, clock advance (replay-deletion)}; DELETE admission is dispatched to the real webhook Handler (with the real index function registered by SetupWebhookWithManager) according to the operations and objectSelector of cluster/webhookconfigurations/usage.yaml. Depth-bounded DFS with state-hash pruning ranked by remaining depth; u1 form enumerated: by reference / by selector / selector with controller match, with or without `by` (reference / selector), of-version v1 / v2, replayDeletion, composed (crossplane.io/composite label: deletion waits for the using resource); start states: u1 just created, or u1 and u2 both reconciled to Ready by the real reconciler. Monitors: M1 every DELETE is refused while some Usage naming r is Ready and not being deleted, and allowed when no Usage names r; M2 refused attempts are recorded; M3 marker before ready; M4 marker removed only by the last Usage (no other Usage naming r exists, terminating ones included); M5 Usage-by owned by the using resource.",
 		[]string{"simkube models the API server, serving the used kind under any version", "admission webhook dispatch follows the repository's webhook configuration (operations, objectSelector); failurePolicy and TLS are not modelled"},
 		[]string{"simkube", "controller-runtime admission types"},
 	)
@@ -436,7 +469,26 @@ func TestCheck(t *testing.T) {
 	for _, f := range forms {
 		f := f
 		name := fmt.Sprintf("u1/sel=%v,mc=%v,by=%v,bysel=%v,of=%s,replay=%v", f.selector, f.matchCtrl, f.by, f.bySelector, f.ofVersion, f.replay)
-		scs = append(scs, report.Scenario{Name: name, Bound: 1, Prune: true, Wrap: report.Bubble(t), Body: func(r *explore.Run) { body(r, rep, name, depth, f) }})
+		scs = append(scs, report.Scenario{Name: name, Bound: 1, Prune: true, Wrap: report.Bubble(t), OnCut: report.DrainTimers, Body: func(r *explore.Run) { body(r, rep, name, depth, f, "") }})
+	}
+	// Composed Usages (their deletion waits for the using resource) and
+	// histories that start with both Usages ready.
+	for _, f := range []usageForm{
+		{by: true, ofVersion: "v1", composed: true},
+		{by: true, bySelector: true, ofVersion: "v2", composed: true},
+		{by: true, ofVersion: "v1"},
+		{ofVersion: "v1"},
+		{selector: true, ofVersion: "v2", replay: true},
+	} {
+		f := f
+		for _, prep := range []string{"", "both-ready"} {
+			prep := prep
+			if prep == "" && !f.composed {
+				continue // already in the list above
+			}
+			name := fmt.Sprintf("u1/sel=%v,by=%v,bysel=%v,of=%s,replay=%v,composed=%v/start=%s", f.selector, f.by, f.bySelector, f.ofVersion, f.replay, f.composed, prep)
+			scs = append(scs, report.Scenario{Name: name, Bound: 1, Prune: true, Wrap: report.Bubble(t), OnCut: report.DrainTimers, Body: func(r *explore.Run) { body(r, rep, name, depth, f, prep) }})
+		}
 	}
 	rep.SelfCheck(t, scs[0], nil)
 	rep.RunScenarios(t, scs)
